@@ -20,6 +20,15 @@ HANDWRITTEN = [
 ]
 
 
+# large circuits (more than 2^17 gates): compiled fewer times
+BIG = [
+    ("big-products", "pub fn main(a: u64, b: u64, c: u64, d: u64) -> u64 { let p1 = a * b; let p2 = a * c; let p3 = a * d; let p4 = b * c; "
+                     "let p5 = b * d; let q1 = a * b; let q2 = b * c; let q3 = a * d; p1 ^ p2 ^ p3 ^ p4 ^ p5 ^ q1 ^ q2 ^ q3 }", {}),
+    ("big-divisions", "pub fn main(a: u64, b: u64, c: u64) -> u64 { let p1 = a * b; let d1 = a / c; let p2 = b * c; let d2 = b / c; let p3 = a * c; "
+                      "let r1 = a % b; let q1 = a * b; let q2 = a / c; p1 ^ d1 ^ p2 ^ d2 ^ p3 ^ r1 ^ q1 ^ q2 }", {}),
+]
+
+
 def run(ctx):
     quick = ctx.tier == "quick"
     ctx.audit(PROP_MODULES)
@@ -33,7 +42,9 @@ def run(ctx):
     for i in range(150 if quick else 3000):
         progs.append((f"datamove#{i}", gen_datamove.program(ctx.rng), {}))
     nrep = 12 if quick else 60
-    cases = [{"id": i, "op": "compile_repeat", "src": s, "consts": c, "n": nrep} for i, (_, s, c) in enumerate(progs)]
+    nbig = len(BIG)
+    progs = list(BIG) + progs
+    cases = [{"id": i, "op": "compile_repeat", "src": s, "consts": c, "n": (4 if quick else 10) if i < nbig else nrep} for i, (_, s, c) in enumerate(progs)]
     inproc, _, _ = ctx.run_impl(cases, timeout=3000)
     # fresh processes: new RandomState seeds
     nproc = 3 if quick else 8
@@ -68,7 +79,7 @@ def run(ctx):
     coverage = {
         "evaluations": len(progs) * (nrep + nproc),
         "distinct_nontrivial": len(distinct),
-        "rule": "every program (hand-written const/panic/struct/function shapes, the repository corpus, generated data-movement "
+        "rule": "every program (hand-written const/panic/struct/function shapes, two programs of more than 2^17 gates, the repository corpus, generated data-movement "
                 "programs) is compiled repeatedly in one process and once in each of several fresh processes (std RandomState "
                 "differs per map and per process); all outcomes (circuit, error or panic) must be identical; non-trivial = distinct "
                 "programs that compile",
